@@ -336,3 +336,21 @@ Definition rzero (o : rop) : rval :=
   | RBits _ => VN 0 | RFlag => VB false | RUe => VN 0 | RSe => VZ 0%Z
   | RBytes _ => VBytes [] | RMore => VMore None
   end.
+
+(* ------------------------------------------------------------------ WriteExpGolomb's prefix loop in uint arithmetic *)
+(* the loop of bits/ebspwriter.go with every uint operation wrapping at 2^64 (`1 << prefixLen` is 0 for
+   prefixLen >= 64); None = no return within `fuel` iterations.  C13Model.ue_loop computes the same loop in N. *)
+Definition M64 : N := 18446744073709551615.
+
+Fixpoint ue_loop64 (fuel : nat) (nr offset prefixLen max : N) : option (N * N) :=
+  match fuel with
+  | O => None
+  | S f =>
+      if nr <=? max then Some (prefixLen, u64 (nr + 18446744073709551616 - offset))
+      else
+        let offset' := u64 (offset + u64 (N.shiftl 1 prefixLen)) in
+        let prefixLen' := u64 (prefixLen + 1) in
+        let max' := u64 (u64 (offset' + u64 (N.shiftl 1 prefixLen')) + 18446744073709551615) in
+        ue_loop64 f nr offset' prefixLen' max'
+  end.
+
